@@ -22,6 +22,7 @@ U16 = ("u16_print_parse", {})
 U17 = ("u17_signature", {})
 U18 = ("u18_values", {})
 U19 = ("u19_parse_trace", {})
+U20 = ("u20_roundtrip", {})
 U12M = ("u12_text_trace", {"which": "mapper"})
 U12C = ("u12_text_trace", {"which": "cache"})
 U3 = ("u3_interpretation", {})
@@ -55,7 +56,7 @@ PROPS = {
     },
     "C02": {
         "title": "A cache written from a mapping answers every query exactly like the mapper",
-        "units": [U1F, U2F, U8, U3, U6M, U6W, U13, U14, U15],
+        "units": [U1F, U2F, U8, U3, U6M, U6W, U13, U14, U15, U20],
         "kani": [],
         "technique": "refinement: both readers proved (Verus) against the SAME spec functions retrace/by_params/unanimous through abs_member / abs_mm",
         "level_text": "Both readers are verified against one shared abstract model, so equal abstract entries give equal answers for remap_class, "
@@ -137,18 +138,20 @@ PROPS = {
         "title": "Typed stack-trace remapping keeps every element",
         "units": [U10M, U10C, U18, U16],
         "kani": [],
-        "technique": "Verus contract on the whole recursive remap_stacktrace_typed (both copies): exception kept, remapped-or-same, cause depth preserved",
-        "level_text": "Proof (with recursion, decreases on cause depth) that typed remapping never drops the exception of a trace or of any "
-                      "cause, that each throwable is the remapped one or the original, and that the cause-chain depth is preserved. The frames "
-                      "fold (Peekable + Vec::extend closure) is behind an assumed shim; agreement of printing with the text API is not decided.",
-        "assumed": ["the frames fold `trace.frames.iter().fold(..)` keeps every frame (contract frames_kept ASSUMED: closure over Peekable<RemappedFrameIter> and Vec::extend is outside Verus' reach)",
+        "technique": "Verus contract on the whole recursive remap_stacktrace_typed (both copies): exception kept, remapped-or-same, cause depth preserved, frames == the concatenation of every frame's remapped frames (or the frame itself), via a generic fold shim whose steps go through the closure's contract, the closure body verified as a region and called in place",
+        "level_text": "Proof (with recursion, decreases on cause depth) that typed remapping never drops the exception of a trace or of any cause, that each throwable is the remapped one or the original, "
+                      "that the cause-chain depth is preserved, and that the frames of the result are exactly remapped_frames(self, trace.frames): every input frame, in order, replaced by all the frames "
+                      "remap_frame yields for it, or kept unchanged when it yields none. StackTrace's Display body prints exactly exception line, frame lines, `Caused by: ` + cause (unit u16). "
+                      "Agreement of the printed typed result with the text API output is not decided.",
+        "assumed": ["slice::iter().fold(init, f) is the chain of accumulators acc[i+1] = f(acc[i], &s[i]) (one generic shim; the closure carries its own contract), Peekable::peek / Vec::extend on the iterator remap_frame returns (ghost: the frames still to come)",
+                    "remap_frame's iterator yields pending_frames(self, frame) (its relation to the retrace specification is proved in u1 / u2), remap_class abstract (u1 / u2)",
                     "'printing the typed result equals the text API output' is not decided (Display / fmt)",
-                    "#[derive(Clone)] on Throwable is a field-wise copy"],
+                    "#[derive(Clone)] on Throwable / StackFrame is a field-wise copy"],
         "design_ref": "DESIGN.md 5/C08",
     },
     "C09": {
         "title": "Written cache files conform to the documented layout and ordering invariants",
-        "units": [U8, U9, U6W, U14],
+        "units": [U8, U9, U6W, U14, U20],
         "kani": ["k1_header_layout", "k1_class_layout", "k1_member_layout", "k2_format_constants"],
         "technique": "Verus proof that the writer tail emits exactly canonical() = the documented v1 layout (header, padded sections, tiling class ranges); Kani (complete, loop-free) for record byte layouts and constants",
         "level_text": "The part of ProguardCache::write after the record-collection loop is proved to deliver exactly canonical(classes, strings): "
@@ -180,7 +183,7 @@ PROPS = {
     },
     "C10": {
         "title": "Version-1 cache files mean the same to every release that accepts them",
-        "units": [U4, U8, U1F],
+        "units": [U4, U8, U1F, U20],
         "kani": ["k1_header_layout", "k1_class_layout", "k1_member_layout", "k2_format_constants"],
         "technique": "conformance of the CURRENT reader (parse, lookups) and writer tail to one frozen v1 specification (Verus contracts + Kani layout proofs); histories are not quantified",
         "level_text": "A per-call contract cannot quantify over release pairs. What is proved: the current writer tail emits the frozen v1 layout "
@@ -289,3 +292,28 @@ NOT_APPLICABLE = {
     "C18": "two lines behind lazy_static! and the optional uuid dependency (SHA-1 inside the dependency); feature is off in the pinned build; a contract would restate the call",
     "C20": "schedules are outside both tools (Kani has no threads; Verus would need its own permission types on code that has no synchronisation); Send+Sync is a type-checker fact",
 }
+
+# ---- texts revised after the late units (u13/u14 whole builders, u20 round trip, flag-independence lemma) ----
+PROPS["C02"]["technique"] = ("refinement: both readers proved (Verus) against the SAME spec functions retrace/by_params/unanimous through abs_member / abs_mm; both builders "
+                             "proved as wholes against abstract folds over one record stream; writer tail == canonical layout; pure lemmas tie the reader's layout to the writer's "
+                             "and show the mapper's line-based content independent of the parameter-index flag")
+PROPS["C02"]["level_text"] = (
+    "Both readers are verified against one shared abstract model, so equal abstract entries give equal answers for remap_class, remap_method, remap_frame (by line and by parameters). "
+    "Both builders are verified as wholes against abstract folds over the same record stream (u13: abs(mapper) == built(records, flag); u14: abs(collected classes) == w_flush(w_run(tables, records))), "
+    "whose steps store the same interpretation of every record (u3 / u6: interp numbers, u32::MAX <=> absent, same file-header and by-params indexing rules). The writer tail emits canonical(classes, strings) (u8), "
+    "and the reader accepts every such file and reads back exactly the emitted tables (u20, pure lemma over the two specifications, modulo the Pod round trip). "
+    "Pure lemma (u13): the line-based content of the mapper (class fields and every per-name entry list) is the same with and without the parameter index. "
+    "Text remapping and signature deobfuscation are equal for mapper and cache relative to equal remap_class / remap_frame answers (C07, C16). "
+    "NOT proved: that the two abstract folds `built` and `w_run` denote the same entries (two parallel definitions), and what the string table returns for an offset (watto).")
+PROPS["C02"]["not_decided"] = ["the refinement between the two abstract folds `built` (mapper) and `w_run` (writer) as a lemma",
+                               "that watto's string table returns the inserted string for the offset it handed out (offset_of / tbl)"]
+PROPS["C09"]["level_text"] = PROPS["C09"]["level_text"].replace(
+    "Sortedness of classes/members and the contents of the string section come from BTreeMap iteration order and watto::StringTable inside the collection loop and are assumed; `test()` accepting every such file is not decided.",
+    "The collection loop is verified as a whole (u14). A pure lemma (u20) shows that the reader's layout functions agree with this layout: ProguardCache::parse accepts every canonical file at an 8-aligned address, "
+    "its length is the header-implied length, and the four sections it slices out are exactly the emitted class records, members, by-params records and strings (modulo the Pod round trip). "
+    "Sortedness of classes/members comes from BTreeMap iteration order and the contents of the string section from watto::StringTable (assumed); `test()` accepting every such file is not decided.")
+PROPS["C10"]["level_text"] = PROPS["C10"]["level_text"].replace(
+    "and the reader interprets records by the shared model (u32::MAX = absent, line rule).",
+    "and the reader interprets records by the shared model (u32::MAX = absent, line rule); the writer's layout and the reader's layout functions are proved to agree (u20).")
+for _p in ("C02", "C09", "C10"):
+    PROPS[_p].setdefault("assumed", []).append("u20: decoding the byte image of a header / a run of class records / a run of member records gives the records back (Pod round trip of watto; layouts pinned by Kani K1); PRGCACHE_MAGIC differs from its byte-swapped form (Kani K2)")
